@@ -28,7 +28,7 @@ from typing import TYPE_CHECKING
 from igraph import Vertex
 
 from explorerscript.ssb_converting.decompiler.write_handlers.abstract import AbstractWriteHandler
-from explorerscript.ssb_converting.ssb_special_ops import SsbLabelJump
+from explorerscript.ssb_converting.ssb_special_ops import SsbForeignLabel, SsbLabel, SsbLabelJump
 
 if TYPE_CHECKING:
     from explorerscript.ssb_converting.ssb_decompiler import ExplorerScriptSsbDecompiler
@@ -53,4 +53,12 @@ class CallWriteHandler(AbstractWriteHandler):
         self.decompiler.write_stmnt(f"call @label_{op.label.id};")
         exits = self.start_vertex.out_edges()
         assert 3 > len(exits) > 0, f"A call must have exactly one or two points to jump to, has {len(exits)}."
+        # Continue with the operation after the call, not with the called label (the order of the edges is not fixed).
+        for e in exits:
+            target_op = e.target_vertex["op"]
+            if isinstance(target_op, SsbLabel) and target_op.id == op.label.id:
+                continue
+            if isinstance(target_op, SsbForeignLabel) and target_op.label.id == op.label.id:
+                continue
+            return e.target_vertex
         return exits[0].target_vertex
